@@ -163,7 +163,9 @@ def evaluate__minus_operator(self: XPathToken, context: ta.ContextType = None) \
 @method('+')
 @method('-')
 def nud__plus_minus_operators(self: XPathToken) -> XPathToken:
-    self[:] = self.parser.expression(rbp=70),
+    # In XPath 1.0 the unary minus has a lower precedence than the union operator:
+    # UnaryExpr ::= UnionExpr | '-' UnaryExpr
+    self[:] = self.parser.expression(rbp=70 if self.parser.version != '1.0' else 47),
     return self
 
 
